@@ -195,14 +195,16 @@ pub(crate) mod proofs {
             kani::cover!(true, "end of harness reachable (vacuity guard)");
         }
 
-        // @props C01 C02
+        // @props C01 C02 C05 C18
         #[kani::proof] #[kani::unwind($unw)] #[kani::stub(std::hint::spin_loop, noop)]
         fn consume_with_getter() {
             let (q, s, before) = any_zc::<N>();
             let empties = std::cell::Cell::new(0u32);
             let reported = std::cell::Cell::new(-1i32);
-            let got = q.consume(|v| *v, || { empties.set(empties.get() + 1); false }, |len| reported.set(len));
+            let free_at_getter = std::cell::Cell::new(u32::MAX);
+            let got = q.consume(|v| { free_at_getter.set(pa::free_count(&*q.allocator)); *v }, || { empties.set(empties.get() + 1); false }, |len| reported.set(len));
             if s.qn > 0 {
+                assert!(free_at_getter.get() == s.pool.free,                 "consume(getter): while the getter reads the payload its slot is still outstanding (not yet allocatable by a producer)");
                 let id = s.pool.perm[s.pool.free as usize % N];
                 assert!(got == Some(before[id as usize]),                    "consume(getter): getter sees the payload of queue[0]");
                 assert!(reported.get() == s.qn as i32 - 1 && empties.get() == 0, "consume(getter): reports len after dequeueing");
